@@ -29,7 +29,7 @@ CLAIMED = {
             "C01_w_aligned_partial. Every run: seeded Raman fibres (10 m..10 km, 0-2 splices, 0-2 matching pairs, four variance "
             "forms); the system reaching the solver is compared row by row with the model's, LSQR's optimum and lstsq's covariance "
             "with the exact optimum, the full-layout p_val/p_cov/tmpf with the model; independent Python Spec oracle.",
-            NOTE + WLSNOTE, "§8 C01"),
+            NOTE + TRANSL + WLSNOTE, "§8 C01"),
     "C02": ("as C01 for the double-ended layout (forward/backward/EQ1-EQ3 rows, gauge-aware), plus tagged-solver position check",
             "Proof: C02_solution_minimises, C02_estimable_invariant (fitted values unique although X'WX is singular with splices), "
             "C02_alpha_zero_at_first, C02_cov_positions, C02_ta_index, the splice gauge (C02_splice_gauge_temperatures: db+=d, both losses "
@@ -39,7 +39,7 @@ CLAIMED = {
             "solver replaced by a tagged stub every reduced parameter, variance and covariance must sit at its documented index "
             "(also with fix_gamma); gauge-independent oracle for alpha outside the reference sections (the property's formula on the "
             "result's own parameters).",
-            NOTE + WLSNOTE + "With splices only the weighted SSR (estimable) is compared.", "§8 C02"),
+            NOTE + TRANSL + WLSNOTE + "With splices only the weighted SSR (estimable) is compared.", "§8 C02"),
     "C03": ("Lean 4: exact-recovery theorem (normal equations + y = X p0 => fitted values, and parameters under full column rank) on the model's checked solve; noise-free end-to-end recovery over the option cross product",
             "Proof: C03_recovery (from Theory.exact_recovery and the bridge), C03_temperature_at_fitted_row (gamma/(I+o) = K when "
             "the row is reproduced), C03_matching_row, C03_match_pairing. Every run: noise-free Raman data x {single, double} x "
